@@ -170,6 +170,12 @@ def gen_case(g):
     rng = base.rng_for(g)
     i = g["i"]
     ws = pm.new_workspace(rng)
+    # headers whose macros a source uses are macro names shared across files: outside C10's
+    # quantifier ("sources that do not share preprocessor macro names across files")
+    for n in [n for n, u in ws["files"].items() if u["kind"] == "header"]:
+        del ws["files"][n]
+    for u in ws["files"].values():
+        u.pop("header", None)
     texts = pm.render_all(ws)
     incremental = rng.random() < 0.8
     argv = ["--disable_autoupdate"] + (["--incremental_sync"] if incremental else [])
